@@ -26,10 +26,17 @@ package client
 // ---- ghost state of a client: trace of MQTT-SN packets handed to the connection, in order ----
 //@ ghost Client.wireN int
 //@ ghost Client.wire map[int]iface
+// Trace of the packets the client tried to send (every call of send, whether or not the write succeeded).
+//@ ghost Client.tryN int
+//@ ghost Client.try map[int]iface
 
 // What every step of the client relies on (established by NewClient + Dial, kept by every step).
 //@ pred cLite(c *Client) = c != nil && c.cfg != nil && c.conn != nil && c.transactions != nil && storeInv(c.transactions) &&
-//@      c.registeredTopics != nil && c.messageHandlers != nil && c.state != nil && c.cancel != nil && c.msgID != nil
+//@      c.registeredTopics != nil && c.messageHandlers != nil && c.state != nil && c.cancel != nil && c.msgID != nil && c.log != nil && cfgFits(c.cfg)
+// A-CLIENTCFG (assumed about the application's configuration, not checked by the library): identifiers and will data fit into one datagram.
+//@ pred cfgFits(cfg *ClientConfig) = len(cfg.ClientID) <= 8184 && len(cfg.WillTopic) <= 8187 && len(cfg.WillPayload) <= 8188 &&
+//@      len(cfg.User) + len(cfg.Password) <= 8000 && cfg.RetryCount < 0xFFFFFFFF
+//@ assumption [C17,C23,C25,C31] A-CLIENTCFG: the application's ClientConfig holds a client ID, will topic/message and credentials that fit into one MQTT-SN datagram, and RetryCount < 2^32 (cfgFits; the library does not check them)
 
 // ---- sending (C17, C23, C25) ----
 //@ func (*Client).send
@@ -37,7 +44,10 @@ package client
 //@   requires [C25] conn: c != nil && c.conn != nil
 //@   requires [C23] wf: wfFromClient(pkt)
 //@   deadreturn 0 Pack never returns an error
-//@   assigns c.wireN, c.wire,
+//@   at Pack.0 before ghost c.try = upd(c.try, c.tryN, pkt)
+//@   at Pack.0 before ghost c.tryN = c.tryN + 1
+//@   ensures [C17] attempt_recorded: c.tryN == old(c.tryN) + 1 && c.try[old(c.tryN)] == pkt && (forall i int :: i != old(c.tryN) ==> c.try[i] == old(c.try[i]))
+//@   assigns c.wireN, c.wire, c.tryN, c.try,
 //@      pkt.(*pkts1.GwInfo).Header.pktLength, pkt.(*pkts1.Connect).Header.pktLength, pkt.(*pkts1.WillMsg).Header.pktLength,
 //@      pkt.(*pkts1.Register).Header.pktLength, pkt.(*pkts1.Publish).Header.pktLength, pkt.(*pkts1.Pingreq).Header.pktLength,
 //@      pkt.(*pkts1.WillMsgUpd).Header.pktLength, pkt.(*pkts1.Auth).Header.pktLength, pkt.(*pkts1.WillTopic).Header.pktLength,
@@ -118,3 +128,187 @@ package client
 //@   ensures [C27] only_a_matching_subscription: forall f MessageHandlerFunc :: calls(f) != old(calls(f)) ==>
 //@      (exists k iface :: (k in mhs.handlers) && smGet(mhs.handlers, k).(*messageHandler).callback == f &&
 //@         matches(smGet(mhs.handlers, k).(*messageHandler).route, levels))
+
+// ---- the step for a packet from the gateway (C17, C25, C27) ----
+//@ func (*Client).handlePacket
+//@   nopanic [C25]
+//@   requires [C25] inv: cInv(c) && decoded(pktx)
+//@   assigns *
+//@   let w0 = old(c.tryN)
+//@   at Connack.0 before assert [C25] entry_wf: clTypedWF(c, box(*connectTransaction, arg(0)))
+//@   at Regack.0 before assert [C25] entry_wf: clEntryWF(c, box(*registerTransaction, arg(0)))
+//@   at Suback.0 before assert [C25] entry_wf: clEntryWF(c, box(*subscribeTransaction, arg(0)))
+//@   at Unsuback.0 before assert [C25] entry_wf: clEntryWF(c, box(*unsubscribeTransaction, arg(0)))
+//@   at Puback.0 before assert [C25] entry_wf: clEntryWF(c, box(*publishQOS1Transaction, arg(0)))
+//@   at Pubrec.0 before assert [C25] entry_wf: clEntryWF(c, box(*publishQOS2Transaction, arg(0)))
+//@   at Pubcomp.0 before assert [C25] entry_wf: clEntryWF(c, box(*publishQOS2Transaction, arg(0)))
+//@   at Pubrel.0 before assert [C25] entry_wf: clEntryWF(c, box(*brokerPublishQOS2Transaction, arg(0)))
+//@   at Publish.0 before assert [C25] entry_base: clBp2Entry(c, arg(0))
+//@   at Publish.0 after assert [C25] entry_wf_now: clEntryWF(c, box(*brokerPublishQOS2Transaction, arg(0)))
+//@   at Pubrec.0 after assert [C25] entry_still_wf: clEntryWF(c, box(*publishQOS2Transaction, arg(0)))
+//@   at Disconnect.0 before assert [C25] entry_wf: clTypedWF(c, arg(0))
+//@   at Pingresp.0 before assert [C25] entry_wf: clTypedWF(c, arg(0))
+//@   ensures [C25] keeps_lite: cLite(c)
+//@   ensures [C25] keeps_handlers: handlersWF(c.messageHandlers)
+//@   ensures [C25] keeps_entries: clEntries(c)
+//@   ensures [C25] keeps_typed: clTyped(c)
+// C17: every PUBREL is answered (one send attempt) with a PUBCOMP of the same message ID, whether or not the exchange is still known
+//@   ensures [C17] pubrel_always_confirmed: istype(pktx, *pkts1.Pubrel) ==> c.tryN == w0 + 1 && istype(c.try[w0], *pkts1.Pubcomp) &&
+//@      c.try[w0].(*pkts1.Pubcomp).messageID == pktx.(*pkts1.Pubrel).messageID
+
+// ---- API calls (C17, C25, C31, C32) ----
+// An API call runs up to its blocking select as one step; while it blocks, the receive loop, timer callbacks and other
+// API calls run. What is known when it resumes are its `rely` clauses (A-RELY): the client invariant, which every step
+// preserves (keeps_* clauses), and that the send traces have only been appended to (contract of send).
+// apiInv: what an API call needs beyond the client invariant (set up by NewClient and Dial).
+//@ pred apiInv(c *Client) = cInv(c) && seqInv(c.msgID) && c.group != nil && c.groupCtx != nil
+//@ spec tbOf(v iface) *transactions.TransactionBase = clRtOf(v).TransactionBase
+
+//@ func (*Client).publish
+//@   nopanic [C25]
+//@   requires [C25] inv: apiInv(c)
+//@   requires [C17] ghost_counter_bound: 0 <= c.tryN && c.tryN < 0x1000000000000 // fewer than 2^48 packets sent so far (the trace index is a ghost)
+//@   requires [C23] fits: len(payload) <= 8183
+//@   rely [C25] inv: apiInv(c)
+//@   rely [C25] exchange_structure_immutable: clEntryWF(c, tx)
+//@   rely [C17] traces_append_only: c.tryN >= old(c.tryN) && (forall i int :: i < old(c.tryN) ==> c.try[i] == old(c.try[i]))
+//@   assigns *
+//@   let w0 = old(c.tryN)
+//@   at Store.0 before let tx = arg(2)
+//@   at Store.0 before assert [C25] new_entry_wf: clEntryWF(c, arg(2)) && clOwns(arg(2))
+//@   at Store.0 before assert [C17] held_for_retransmission: istype(clRtOf(arg(2)).Data, *pkts1.Publish) && wfFromClient(clRtOf(arg(2)).Data) &&
+//@      clRtOf(arg(2)).State == box(transactionState, ite(qos == 1, 1, 2))
+// the first transmission: DUP clear, the caller's QoS / topic / retain / payload, the message ID just drawn
+//@   at send.0 before assert [C17] first_transmission_qos0: istype(arg(1), *pkts1.Publish) && !arg(1).(*pkts1.Publish).DUPProperty.dup &&
+//@      arg(1).(*pkts1.Publish).QOS == qos && arg(1).(*pkts1.Publish).TopicIDType == topicIDType && arg(1).(*pkts1.Publish).TopicID == topicID &&
+//@      arg(1).(*pkts1.Publish).Retain == retain && sameSlice(arg(1).(*pkts1.Publish).Data, payload)
+//@   at send.1 before assert [C17] first_transmission: istype(arg(1), *pkts1.Publish) && !arg(1).(*pkts1.Publish).DUPProperty.dup &&
+//@      arg(1).(*pkts1.Publish).QOS == qos && arg(1).(*pkts1.Publish).TopicIDType == topicIDType && arg(1).(*pkts1.Publish).TopicID == topicID &&
+//@      arg(1).(*pkts1.Publish).Retain == retain && sameSlice(arg(1).(*pkts1.Publish).Data, payload) && arg(1) == clRtOf(tx).Data
+//@   ensures [C25] keeps_lite: cLite(c)
+//@   ensures [C25] keeps_handlers: handlersWF(c.messageHandlers)
+//@   ensures [C25] keeps_entries: clEntries(c)
+//@   ensures [C25] keeps_typed: clTyped(c)
+//@   ensures [C17] invalid_qos_refused: qos > 3 ==> result != nil && c.tryN == w0
+//@   ensures [C17] one_attempt_at_least: qos <= 3 ==> c.tryN >= w0 + 1 && istype(c.try[w0], *pkts1.Publish)
+// C17: with QoS 1/2 the call reports success only for an exchange that was completed, and completed without an error
+// (Success is called only by Puback / Pubcomp in the awaited state, Fail always with an error: their contracts).
+//@   ensures [C17] nil_only_without_error: (qos == 1 || qos == 2) && result == nil ==> tbOf(tx).err == nil
+
+//@ func (*Client).subscribe
+//@   nopanic [C25]
+//@   requires [C25] inv: apiInv(c)
+//@   requires [C23] fits: len(topicName) <= 8183
+//@   rely [C25] inv: apiInv(c)
+//@   rely [C25] exchange_structure_immutable: clEntryWF(c, tx)
+//@   rely [C17] traces_append_only: c.tryN >= old(c.tryN) && (forall i int :: i < old(c.tryN) ==> c.try[i] == old(c.try[i]))
+//@   assigns *
+//@   at Store.0 before let tx = arg(2)
+//@   at Store.0 before assert [C25] new_entry_wf: clEntryWF(c, arg(2)) && clOwns(arg(2))
+//@   at send.0 before assert [C17] first_transmission: istype(arg(1), *pkts1.Subscribe) && !arg(1).(*pkts1.Subscribe).DUPProperty.dup &&
+//@      arg(1).(*pkts1.Subscribe).QOS == qos && arg(1).(*pkts1.Subscribe).TopicIDType == topicIDType && arg(1).(*pkts1.Subscribe).TopicID == topicID &&
+//@      arg(1).(*pkts1.Subscribe).TopicName == topicName && arg(1) == clRtOf(tx).Data
+//@   ensures [C25] keeps_lite: cLite(c)
+//@   ensures [C25] keeps_handlers: handlersWF(c.messageHandlers)
+//@   ensures [C25] keeps_entries: clEntries(c)
+//@   ensures [C25] keeps_typed: clTyped(c)
+
+//@ func (*Client).unsubscribe
+//@   nopanic [C25]
+//@   requires [C25] inv: apiInv(c)
+//@   requires [C23] fits: len(topicName) <= 8183
+//@   rely [C25] inv: apiInv(c)
+//@   rely [C25] exchange_structure_immutable: clEntryWF(c, tx)
+//@   at Store.0 before let tx = arg(2)
+//@   assigns *
+//@   at Store.0 before assert [C25] new_entry_wf: clEntryWF(c, arg(2)) && clOwns(arg(2))
+//@   ensures [C25] keeps_lite: cLite(c)
+//@   ensures [C25] keeps_handlers: handlersWF(c.messageHandlers)
+//@   ensures [C25] keeps_entries: clEntries(c)
+//@   ensures [C25] keeps_typed: clTyped(c)
+
+//@ func (*Client).Register
+//@   nopanic [C25]
+//@   requires [C25] inv: apiInv(c)
+//@   requires [C23] fits: len(topic) <= 8184
+//@   rely [C25] inv: apiInv(c)
+//@   rely [C25] exchange_structure_immutable: clEntryWF(c, tx)
+//@   at Store.0 before let tx = arg(2)
+//@   assigns *
+//@   at Store.0 before assert [C25] new_entry_wf: clEntryWF(c, arg(2)) && clOwns(arg(2))
+//@   ensures [C25] keeps_lite: cLite(c)
+//@   ensures [C25] keeps_handlers: handlersWF(c.messageHandlers)
+//@   ensures [C25] keeps_entries: clEntries(c)
+//@   ensures [C25] keeps_typed: clTyped(c)
+
+//@ func (*Client).Ping
+//@   nopanic [C25]
+//@   requires [C25] inv: apiInv(c)
+//@   rely [C25] inv: apiInv(c)
+//@   rely [C25] exchange_structure_immutable: clTypedWF(c, tx)
+//@   at StoreByType.0 before let tx = arg(2)
+//@   assigns *
+//@   at StoreByType.0 before assert [C25] new_entry_wf: clTypedWF(c, arg(2))
+//@   ensures [C25] keeps_lite: cLite(c)
+//@   ensures [C25] keeps_handlers: handlersWF(c.messageHandlers)
+//@   ensures [C25] keeps_entries: clEntries(c)
+//@   ensures [C25] keeps_typed: clTyped(c)
+
+//@ func (*Client).Sleep
+//@   nopanic [C25]
+//@   requires [C25] inv: apiInv(c)
+//@   rely [C25] inv: apiInv(c)
+//@   rely [C25] exchange_structure_immutable: clTypedWF(c, tx)
+//@   at StoreByType.0 before let tx = arg(2)
+//@   assigns *
+//@   at StoreByType.0 before assert [C25] new_entry_wf: clTypedWF(c, arg(2))
+//@   ensures [C25] keeps_lite: cLite(c)
+//@   ensures [C25] keeps_handlers: handlersWF(c.messageHandlers)
+//@   ensures [C25] keeps_entries: clEntries(c)
+//@   ensures [C25] keeps_typed: clTyped(c)
+
+//@ func (*Client).Disconnect
+//@   nopanic [C25]
+//@   requires [C25] inv: apiInv(c)
+//@   rely [C25] inv: apiInv(c)
+//@   rely [C25] exchange_structure_immutable: clTypedWF(c, tx)
+//@   at StoreByType.0 before let tx = arg(2)
+//@   assigns *
+//@   at StoreByType.0 before assert [C25] new_entry_wf: clTypedWF(c, arg(2))
+//@   ensures [C25] keeps_lite: cLite(c)
+//@   ensures [C25] keeps_handlers: handlersWF(c.messageHandlers)
+//@   ensures [C25] keeps_entries: clEntries(c)
+//@   ensures [C25] keeps_typed: clTyped(c)
+
+// ---- C31: AUTH follows every CONNECT exactly when a user is configured ----
+// One round of Connect = the sends between two blocking points. When the round reaches its select (both sends
+// succeeded) it has sent CONNECT and, exactly when a user is configured, AUTH immediately after it; an AUTH is
+// sent only as the packet right after the round's CONNECT. (That no other function of the library builds a
+// CONNECT or an AUTH is the sweep obligation sweep.auth_only_in_connect.)
+//@ func (*Client).Connect
+//@   nopanic [C25]
+//@   requires [C25] inv: apiInv(c)
+//@   rely [C25] inv: apiInv(c)
+//@   rely [C25] exchange_structure_immutable: clTypedWF(c, tx)
+//@   at StoreByType.0 before let tx = arg(2)
+//@   rely [C25] config_immutable: c.cfg == old(c.cfg) && c.cfg.User == old(c.cfg.User)
+//@   rely [C23] connect_packet_immutable: wfFromClient(cpkt)
+//@   rely [C23] auth_packet_immutable: wfFromClient(apkt)
+//@   at NewConnect.0 after let cpkt = box(*pkts1.Connect, ret)
+//@   at NewAuthPlain.0 after let apkt = box(*pkts1.Auth, ret)
+//@   assigns *
+//@   at StoreByType.0 before assert [C25] new_entry_wf: clTypedWF(c, arg(2))
+//@   at send.0 before let n0 = c.tryN
+//@   at send.0 before assert [C31] connect_first: istype(arg(1), *pkts1.Connect)
+//@   at send.1 before assert [C31] auth_right_after_connect: c.tryN == n0 + 1 && istype(c.try[n0], *pkts1.Connect) && istype(arg(1), *pkts1.Auth)
+//@   at send.1 before assert [C31] auth_only_with_user: len(c.cfg.User) != 0
+//@   at Done.0 before assert [C31] round_with_user: len(c.cfg.User) != 0 ==> c.tryN == n0 + 2 && istype(c.try[n0], *pkts1.Connect) && istype(c.try[n0 + 1], *pkts1.Auth)
+//@   at Done.0 before assert [C31] round_without_user: len(c.cfg.User) == 0 ==> c.tryN == n0 + 1 && istype(c.try[n0], *pkts1.Connect)
+//@   loop 0 invariant [C25] inv: apiInv(c)
+//@   loop 0 invariant [C31] config_immutable: c.cfg == old(c.cfg) && c.cfg.User == old(c.cfg.User)
+//@   loop 0 invariant [C23] connect_packet: wfFromClient(cpkt) && istype(cpkt, *pkts1.Connect)
+//@   loop 0 invariant [C23] auth_packet: wfFromClient(apkt) && istype(apkt, *pkts1.Auth)
+//@   ensures [C25] keeps_lite: cLite(c)
+//@   ensures [C25] keeps_handlers: handlersWF(c.messageHandlers)
+//@   ensures [C25] keeps_entries: clEntries(c)
+//@   ensures [C25] keeps_typed: clTyped(c)
